@@ -8,6 +8,7 @@ import EvyV.Driver.EvalDrv
 import EvyV.Driver.EnvDrv
 import EvyV.Driver.SvgDrv
 import EvyV.Driver.TyDrv
+import EvyV.Driver.LexDrv
 import EvyV.Gen.Shapes
 /-
 Line protocol driver (core-only, compiled as `lean_exe evyv`).
@@ -61,6 +62,7 @@ def handle (line : String) : String :=
   | "verifychoice" :: rest => EnvDrv.handleVerify rest
   | "svg" :: rest => SvgDrv.handle rest
   | "ty" :: rest => TyDrv.handle rest
+  | "lex" :: rest => LexDrv.handle rest
   | _ => "ERR unknown request"
 
 partial def loop (hin hout : IO.FS.Stream) : IO Unit := do
